@@ -65,6 +65,17 @@ def explore(ctx):
         ctx.count(f'each:k={len(sc["files"])}:cache={"off" if sc["cfg"]["no_cache"] else "on"}')
         if any(p['worked'] for p in o.passes) and any(rc != 0 for (_c, rc, _w, _l) in o.testlog):
             ctx.nontriv(repr((sc['files'], sc['passes'], sc['rules'], sc['cfg'], sc['sched'])))
+    # oracle-only sweep of cache-revisit scenarios with several files (no model evaluation needed)
+    for it in range(350 if ctx.quick() else 4000):
+        sc = scengen.gen_revisit(rnd, k=rnd.choice([2, 2, 3]), alphabet=rnd.choice(['ab', 'abc']))
+        o = driver.run_scenario(sc, ctx.tmp)
+        ctx.evaluations += 1
+        if o.diverged:
+            continue
+        oracle(ctx, sc, o, 'each')
+        ctx.count('revisit-oracle-only')
+        if any(p['worked'] for p in o.passes) and any(rc != 0 for (_c, rc, _w, _l) in o.testlog):
+            ctx.nontriv(repr((sc['files'], sc['passes'], sc['rules'], sc['cfg'], sc['sched'])))
     for it in range(n2):
         sc = scengen.gen_group(rnd, 'faults' if it % 3 else 'contract')
         o = driver.run_scenario(sc, ctx.tmp, mode='reduce')
